@@ -7,14 +7,15 @@ THEOREMS = ['ParsecVerif.C39.join_fields',
             'ParsecVerif.C39.split_join',
             'ParsecVerif.C39.join_split',
             'ParsecVerif.C39.splitWithEmpty_join',
-            'ParsecVerif.C39.splitWithEmpty_join_partial',
-            'ParsecVerif.C39.splitWithEmpty_join_full_false',
             'ParsecVerif.C39.join_splitWithEmpty',
+            'ParsecVerif.C39.splitWithEmptyBuggy_join',
+            'ParsecVerif.C39.splitWithEmptyBuggy_loses_field',
             'ParsecVerif.C39.joinRange_spec',
             'ParsecVerif.C39.delete_spec',
             'ParsecVerif.C39.delete_noop',
-            'ParsecVerif.C39.delete_argc_partial',
-            'ParsecVerif.C39.delete_argc_full_false',
+            'ParsecVerif.C39.delete_argc',
+            'ParsecVerif.C39.deleteBuggy_spec',
+            'ParsecVerif.C39.deleteBuggy_argc_inconsistent',
             'ParsecVerif.C39.insert_spec',
             'ParsecVerif.C39.insert_noop',
             'ParsecVerif.C39.insertElement_spec',
@@ -22,20 +23,21 @@ THEOREMS = ['ParsecVerif.C39.join_fields',
             'ParsecVerif.C39.parse_wellformed',
             'ParsecVerif.C39.parse_queries',
             'ParsecVerif.C39.parse_bundle',
-            'ParsecVerif.C39.parse_double_free_witness']
+            'ParsecVerif.C39.parse_no_double_free',
+            'ParsecVerif.C39.parseBuggy_double_free_witness']
 IMPL = 'parsec/utils/argv.c, parsec/utils/cmd_line.c'
 ENGINE = 'lean-seq'
 LEVEL = 'proof'
 LEVEL_TEXT = ('Lean 4 theorems, for all byte strings, delimiters, vectors, positions and option tables: split/join round trips in both directions '
-              '(join(split s d) = s with its empty fields removed; split(join v) = v for delimiter-free non-empty fields; the exact value of join(split_with_empty s d), '
-              'which equals s iff s does not end with the delimiter; join_range = join of the addressed slice), delete and insert/insert_element change exactly the addressed '
-              'positions (element-wise characterisation incl. clamping), copy is the identity, and parse of any well-formed command line (declared options with their parameter '
-              'counts, then nothing / `--` tail / an unrecognised token) reports exactly the option instances with their parameters in order and exactly the tail; a bundle of short '
-              'options parses like its expansion. Three statements that are FALSE of the code are proved false with witnesses that are replayed on the real library (known findings): '
-              'split_with_empty drops a trailing empty field, argv_delete leaves argc inconsistent when the range overruns, and cmd_line_parse double-frees on a bundle whose option '
-              'received only part of its parameters. The models mirror argv.c / cmd_line.c branch by branch and are tied to the current source on every run by corpus and random '
-              'operation scripts executed on the real functions under ASan/UBSan and compared line by line with the compiled Lean model; an independent Python oracle written from the '
-              'property text and the header documentation is evaluated on the outputs of the real code.')
+              '(join(split s d) = s with its empty fields removed; split(join v) = v for delimiter-free non-empty fields; join(split_with_empty s d) = s for EVERY string and '
+              'split_with_empty(join v) = v; join_range = join of the addressed slice), delete and insert/insert_element change exactly the addressed positions (element-wise '
+              'characterisation incl. clamping) and delete always leaves argc equal to the vector length, copy is the identity, and parse of any well-formed command line (declared '
+              'options with their parameter counts, then nothing / `--` tail / an unrecognised token / an unknown option / an option lacking parameters) reports exactly the option '
+              'instances with their parameters in order, exactly the tail and the return code; a bundle of short options parses like its expansion; no parse whatsoever frees a '
+              'parameter vector twice. Three defects found by this check were repaired in /repo (8e71ed6, ecccfcb, 16257ae); the previous behaviour is kept as *Buggy definitions with '
+              'witness theorems refuting the statements for it. The models mirror argv.c / cmd_line.c branch by branch and are tied to the current source on every run by corpus and random '
+              'operation scripts executed on the real functions (the two source files are compiled into the ASan/UBSan harness) and compared line by line with the compiled Lean model; an '
+              'independent Python oracle written from the property text and the header documentation is evaluated on the outputs of the real code.')
 LEVEL_NOTE = ('Theorems are about the Lean models; the tie to the C code is differential testing. Not modelled: allocation failure paths, set_dest (destination variables, MCA '
               'environment export), the usage message, int overflow of start+num, delimiters outside 1..127 (char signedness). The parse theorem covers well-formed lines; the '
               'behaviour on malformed lines (unknown options, missing parameters, unknown letters in bundles) is modelled and differentially checked but only the error/tail shape is stated. '
@@ -44,9 +46,6 @@ TECHNIQUE = 'Lean 4 proofs (structural/strong induction over strings, vectors an
 ASSUMPTIONS = ['strings contain no NUL byte; delimiters are in 1..127; argc passed to parse equals the vector length',
                'malloc/realloc/strdup succeed', 'options have no destination variable / MCA parameter (set_dest is then a no-op)']
 
-F1 = 'C39-F1 argv_split_with_empty drops the trailing empty field when the string ends with the delimiter'
-F2 = 'C39-F2 argv_delete subtracts num_to_delete from *argc even when fewer elements exist from start on'
-F3 = 'C39-F3 cmd_line_parse double free: bundled short option that received only part of its parameters'
 SPECIAL = ''.join(chr(i) for i in range(1, 11))
 SAFE = set('abcdefghijklmnopqrstuvwxyzABCDEFGHIJKLMNOPQRSTUVWXYZ0123456789,.:;_=+/-')
 
@@ -360,7 +359,7 @@ def parse_result(r):
 
 
 def is_df_class(op):
-    """ops of the known double-free class (finding F3) are run in a process of their own"""
+    """ops that reach the special-token error exit after >= 1 saved parameter (the path repaired by 16257ae); counted in the distribution"""
     if not op.startswith('parse '):
         return False
     p = parse_op_words(op)
@@ -374,7 +373,7 @@ def is_df_class(op):
 
 def oracle(ops, impl):
     """The property statement evaluated on the outputs of the real code.  Returns [(key or None, text)]:
-    key = F1/F2 for instances of the known findings, None for anything else."""
+    first component is always None (kept for the tuple shape)."""
     fails = []
     vec, argc = None, 0
     for o, r in zip(ops, impl):
@@ -399,10 +398,7 @@ def oracle(ops, impl):
             else:
                 want = s.split(d) if s else []
                 if joined != s or pieces != want:
-                    if s.endswith(d) and joined == s[:-1] and pieces == want[:-1]:
-                        fails.append((F1, '%s: join of the pieces gives %r, not the original string (pieces %r)' % (o, joined, pieces)))
-                    else:
-                        fails.append((None, '%s: pieces %r joined %r, expected fields %r' % (o, pieces, joined, want)))
+                    fails.append((None, '%s: pieces %r, their join %r is not the original string; expected fields %r' % (o, pieces, joined, want)))
             continue
         if op == 'parse':
             p = parse_op_words(o)
@@ -464,7 +460,7 @@ def oracle(ops, impl):
             fails.append((None, '%s: unreadable result %s' % (o, r))); continue
         rc = int(m.group(1)) if m.group(1) is not None else None
         nargc, nvec = int(m.group(2)), dec_vec(m.group(3))
-        want, want_argc, known = vec, argc, None
+        want, want_argc = vec, argc
         if op == 'setv':
             want = [dec(x) for x in w[1:]]; want_argc = len(want)
         elif op == 'null':
@@ -502,15 +498,13 @@ def oracle(ops, impl):
                         fails.append((None, '%s: accepted a negative argument' % o))
                 else:
                     want = vec[:start] + vec[start + num:]
-                    # argc is the caller's element count: it must drop by the number of removed elements
-                    want_argc = argc - (len(vec) - len(want))
-                    if nvec == want and nargc != want_argc and nargc == argc - num:
-                        known = F2
+                    # after an accepted delete, argc is the number of elements of the vector
+                    want_argc = len(want)
         if nvec != want:
             fails.append((None, '%s: vector %r, expected %r' % (o, nvec, want)))
         elif nargc != want_argc:
-            fails.append((known, '%s: argc=%d after the call although %d element(s) were removed from a vector of %d (argc was %d)' % (
-                o, nargc, len(vec or []) - len(want or []), len(vec or []), argc) if op == 'delete' else '%s: argc=%d, expected %d' % (o, nargc, want_argc)))
+            fails.append((None, '%s: argc=%d after the call but the vector has %d element(s) (%d removed from %d)' % (
+                o, nargc, len(want or []), len(vec or []) - len(want or []), len(vec or [])) if op == 'delete' else '%s: argc=%d, expected %d' % (o, nargc, want_argc)))
         vec, argc = nvec, nargc
     return fails
 
@@ -549,21 +543,8 @@ def run(ctx, res, cases=None):
     if cases is None:
         n = 500 if ctx.quick else 12000
         cases = corpus + [gen_case(rng.fork(k), rng.range(4, 30 if ctx.quick else 60)) for k in range(n)]
-    # ops of the known double-free class would kill the harness process: run each in a process of its own
-    isolated = []
-    batch = []
-    for c in cases:
-        keep = []
-        for o in c:
-            (isolated if is_df_class(o) else keep).append(o)
-        batch.append(keep)
-    known = {}      # finding key -> [count, minimal case, text]
-
-    def note_known(key, case, text):
-        if key not in known or len(' ; '.join(case)) < len(' ; '.join(known[key][1])):
-            known[key] = [known.get(key, [0])[0], case, text]
-        known[key][0] += 1
-
+    batch = [list(c) for c in cases]
+    n_partial_special = sum(1 for c in cases for o in c if is_df_class(o))
     hist, results_all = {}, []
     todo = batch
     crashes = 0
@@ -597,17 +578,6 @@ def run(ctx, res, cases=None):
             hist[o.split()[0]] = hist.get(o.split()[0], 0) + 1
         fails = oracle(r['ops'], r['impl'])
         new = [f for f in fails if f[0] is None]
-        for key, text in fails:
-            if key is not None:
-                idx = next(i for i, o in enumerate(r['ops']) if text.startswith(o + ':'))
-                if r['ops'][idx].startswith('splite'):
-                    mini = [r['ops'][idx]]
-                elif key not in known:
-                    has_key = lambda ops, key=key: any(f[0] == key for f in oracle(ops, pv.run_script(exe, 'pv_C39', [ops], env=env, use_driver=False, timeout=60)[0][0]['impl']))
-                    mini = pv.ddmin(r['ops'][:idx + 1], has_key, max_tests=60)
-                else:
-                    mini = r['ops'][:idx + 1]
-                note_known(key, mini, text)
         if new:
             failing = lambda ops: any(f[0] is None for f in oracle(ops, pv.run_script(exe, 'pv_C39', [ops], env=env, use_driver=False, timeout=60)[0][0]['impl']))
             small = pv.ddmin(r['ops'], failing, max_tests=120)
@@ -621,33 +591,7 @@ def run(ctx, res, cases=None):
             res.nontrivial(' ; '.join(r['ops']))
         if len(res.violations) + len(res.disagreements) >= 5:
             break
-    # isolated ops (class F3): a crash is the known finding; a survivor must agree with the model's result
-    iso_seen = set()
-    n_iso = 0
-    for o in isolated:
-        if o in iso_seen or n_iso >= (5 if ctx.quick else 40):
-            continue
-        iso_seen.add(o); n_iso += 1
-        rr = pv.run_script(exe, 'pv_C39', [[o]], env=env, use_driver=ctx.driver_ok, timeout=60)
-        rs, (rc1, err1) = rr[0][0], rr[3]
-        res.evaluations += 1
-        model = (rs['model'] or [''])[0] if ctx.driver_ok else None
-        if rc1 != 0 or rs['crashed'] or not rs['impl'] or rs['impl'][0] == '':
-            if 'param_destructor' in err1 and 'parsec_argv_free' in err1 and 'parsec_cmd_line_parse' in err1:
-                note_known(F3, [o], '%s: the real parser aborts while freeing the parameter vector of the option a second time: %s' % (
-                    o, ' | '.join(l.strip() for l in err1.splitlines() if 'ERROR' in l or 'cmd_line.c' in l or 'argv.c' in l)[:600]))
-            else:
-                res.violations.append({'key': 'crash: ' + o, 'what': 'real code crashed on `%s`: %s' % (o, err1[-400:]), 'case': [o]})
-            if ctx.driver_ok and not model.startswith('double-free '):
-                res.disagreements.append({'case': [o], 'impl': ['<crash>'], 'model': [model]})
-        else:
-            for f in oracle([o], rs['impl']):
-                res.violations.append({'key': o, 'what': f[1], 'case': [o]})
-            if ctx.driver_ok and rs['impl'][0] != re.sub(r'^double-free ', '', model):
-                res.disagreements.append({'case': [o], 'impl': rs['impl'], 'model': [model]})
-    for key, (cnt, case, text) in known.items():
-        res.violations.append({'key': key, 'what': text, 'case': case, 'instances_this_run': cnt})
-    res.traces_validated = len(results_all) + n_iso
+    res.traces_validated = len(results_all)
     res.rule = ('corpus cases first, then random operation scripts (4..30 ops quick / 4..60 thorough) mixing vector ops (setv/append/prepend/append_unique/insert/insert_element/delete/'
                 'count/len/copy/join/join_range on one live vector with positions from -1 to count+2), split/split_with_empty of strings dense in delimiters (incl. empty, all-delimiter, '
                 'fields of 126..300 bytes around the 128-byte buffer, bytes >= 128) and parse of generated option tables (0..6 options, 0..3 parameters, name collisions 1/6) with mostly '
@@ -661,8 +605,7 @@ def run(ctx, res, cases=None):
         'parse_ops': len(nparse), 'parse_rc_error': sum(1 for r in results_all for x in r['impl'] if x.startswith('rc=-1')),
         'parse_with_tail': sum(1 for r in results_all for x in r['impl'] if x.startswith('rc=') and 'tail=0:' not in x),
         'parse_with_instances': sum(1 for r in results_all for x in r['impl'] if x.startswith('rc=') and ' ( ' in x),
-        'isolated_double_free_class_ops': n_iso, 'harness_stats': stats_all,
-        'known_finding_instances': {k: v[0] for k, v in known.items()},
+        'parse_special_token_after_saved_param': n_partial_special, 'harness_stats': stats_all,
     }
 
 
